@@ -41,6 +41,68 @@ FORCE_AVOID = set(PINS) if _force == "all" else set(x for x in _force.split(",")
 # ----------------------------------------------------------------------------- catalogue
 
 CATALOGUE = [
+    # third session (area round): a captured variable whose ONLY mention inside the function literal is an argument
+    # of a later call of a method chain / the fallback of `(x) or y`
+    ("captured_only_in_later_chain_call_argument", """
+class Acc {
+  v: int
+  constructor(self) {
+    self.v = 0
+  }
+  fn add(self, k: int) -> Self {
+    self.v += k
+    return self
+  }
+  fn value(self) -> int {
+    return self.v
+  }
+}
+second = 40
+mk = fn() -> fn() -> int {
+  first = 1
+  second = 2
+  third = 3
+  return fn() -> int {
+    a = Acc()
+    return a.add(first).add(second).add(third).value()
+  }
+}
+g = mk()
+print g()
+second = 41
+print g()
+"""),
+    ("captured_only_in_or_fallback", """
+mk = fn(fallback: int) -> fn(int?) -> int {
+  return fn(x: int?) -> int {
+    return (x) or fallback
+  }
+}
+d = mk(7)
+n: int? = nil
+p: int? = 3
+print d(p)
+print d(n)
+e = mk(9)
+print e(n)
+print d(n)
+"""),
+    ("captured_only_in_or_fallback_modified_later", """
+mk = fn() -> [fn(int?) -> int, fn()] {
+  fb = 1
+  const r = [fn(x: int?) -> int {
+    return (x) or fb
+  }, fn() {
+    modify fb = fb + 10
+  }]
+  return r
+}
+[rd, bump] = mk()
+n: int? = nil
+print rd(n)
+bump()
+print rd(n)
+"""),
     ("reader_sees_owner_assignment", """
 x = 5
 f = fn() -> int {
